@@ -21,6 +21,7 @@ def run(ctx: Ctx) -> None:
     orbits.rule_orbit_provenance(ctx, ["lc_orbit_finder", "rgs_orbit_finder", "linear_partial_orbit", "depth_first_orbit"])
     orbits.rule_automorph(ctx)
     orbits.rule_iso_finder_bounds(ctx)
+    orbits.rule_distinct_sources(ctx)
     shapes.rule_relabel_form(ctx)
     tables.rule_api_numpy(ctx, [RELABEL], advisory_rels=(["graphiq/noise/time_depend_noise.py", "graphiq/io.py",
                                                          "graphiq/data_collection/correlation_module.py"]
@@ -30,6 +31,8 @@ def run(ctx: Ctx) -> None:
 
 
 KNOCKOUTS = [
+    Knockout("dedup-against-tail", RELABEL, sub_once("check_isomorphism(g_lc, orbit_list, _only_auto=with_iso)", "check_isomorphism(g_lc, orbit_list[-new_graphs:], _only_auto=with_iso)"), "distinct.source", "duplicate test against part"),
+    Knockout("iso-batches-glued", RELABEL, sub_once("            adj_arr = automorph_check(adj_matrix, labels_arr)\n            n2", "            adj_arr = np.concatenate((adj_arr, automorph_check(adj_matrix, labels_arr)[1:]))\n            n2"), "distinct.source", "glued"),
     Knockout("relabel-inverse", RELABEL, sub_once("    permuted_adj_matrix = p_matrix.T @ adj_matrix @ p_matrix", "    permuted_adj_matrix = p_matrix @ adj_matrix @ p_matrix.T"), "relabel.form", "relabel"),
     Knockout("perm2matrix-transposed", RELABEL, sub_once("        permute_matrix[i, label] = 1", "        permute_matrix[label, i] = 1"), "relabel.form", "_perm2matrix"),
     Knockout("G10-foreign-graph", RELABEL, sub_once("        orbit_list.append(g_lc_2)", "        orbit_list.append(nx.complement(g_lc))"),
